@@ -247,14 +247,22 @@ class Profiles:
         **very** slow instead.
         """
         # add macros
+        reset = False
         for profile, properties, macros in profiles:
             if macros:
+                if self._profileNames and set(macros).intersection(self._usedMacros):
+                    # macros used by already added profiles change
+                    reset = True
                 self._usedMacros.update(macros)
                 self._rawProfiles[profile] = {'macros': macros.copy()}
 
         # only add new properties
         for profile, properties, macros in profiles:
             self.addProfile(profile, properties.copy(), None)
+
+        if reset:
+            # as addProfile does: reflect the macro changes in all profiles
+            self._resetProperties()
 
     def addProfile(self, profile, properties, macros=None):
         """Add a new profile with name `profile` (e.g. 'CSS level 2')
